@@ -303,3 +303,64 @@ func followsAll(fn *ssa.Function, isA, isB InstrPred, onlySuccess bool) bool {
 
 // callReachingAny is callReaching for a slice of targets.
 func (c *Ctx) callReachingAny(targets []*ssa.Function) InstrPred { return c.callReaching(targets...) }
+
+// updSite is a map update as seen from an analysed function: either a MapUpdate instruction of the
+// function itself, or a call to a module helper that performs the update on its map parameter under a
+// key parameter (e.g. appendTxIdAtHeight(m, height, id)). m and k are the values in the analysed
+// function (the call's arguments in the second case); inner are the concrete updates.
+type updSite struct {
+	at      ssa.Instruction
+	m, k    ssa.Value
+	inner   []*ssa.MapUpdate
+	innerFn *ssa.Function
+}
+
+func paramIndex(fn *ssa.Function, v ssa.Value) int {
+	v = core.Strip(v)
+	for i, p := range fn.Params {
+		if ssa.Value(p) == v {
+			return i
+		}
+	}
+	return -1
+}
+
+// mapUpdateSites lists the map updates of fn including those delegated to a helper (one level).
+func (c *Ctx) mapUpdateSites(fn *ssa.Function) []updSite {
+	var out []updSite
+	for _, b := range fn.Blocks {
+		for _, in := range b.Instrs {
+			switch x := in.(type) {
+			case *ssa.MapUpdate:
+				out = append(out, updSite{at: in, m: x.Map, k: x.Key, inner: []*ssa.MapUpdate{x}, innerFn: fn})
+			case *ssa.Call:
+				g := core.StaticCallee(x)
+				if g == nil || g == fn || len(g.Blocks) == 0 || !c.P.InModule(g) {
+					continue
+				}
+				// group the helper's updates by (map param, key param)
+				type mk struct{ mi, ki int }
+				groups := map[mk][]*ssa.MapUpdate{}
+				for _, gb := range g.Blocks {
+					for _, gin := range gb.Instrs {
+						mu, ok := gin.(*ssa.MapUpdate)
+						if !ok {
+							continue
+						}
+						mi, ki := paramIndex(g, mu.Map), paramIndex(g, mu.Key)
+						if mi < 0 || ki < 0 {
+							continue
+						}
+						groups[mk{mi, ki}] = append(groups[mk{mi, ki}], mu)
+					}
+				}
+				for key, mus := range groups {
+					if key.mi < len(x.Call.Args) && key.ki < len(x.Call.Args) {
+						out = append(out, updSite{at: in, m: x.Call.Args[key.mi], k: x.Call.Args[key.ki], inner: mus, innerFn: g})
+					}
+				}
+			}
+		}
+	}
+	return out
+}
